@@ -116,8 +116,20 @@ class C20(Prop):
     harness = "h_simd.c"
     harness_flags = ["-msse4.1", "-mavx2", "-mavx512f", "-mavx512dq", "-mavx512bw"]
     theorems = ["EaselModel.Props.C20." + t for t in (
-        "sse_hmax_epu8", "sse_hmax_epi8", "sse_hmax_epi16", "avx_hmax_epu8", "avx_hmax_epi8", "avx_hmax_epi16", "avx512_hmax_epu8", "avx512_hmax_epi8", "avx512_hmax_epi16", "sse_hsum_ps_tree", "sse_hmax_ps_tree", "sse_hmin_ps_tree", "sse_hsum_ps", "avx_hsum_ps", "avx512_hsum_ps", "sse_hmax_ps", "sse_hmin_ps", "sse_any_gt_epu8", "sse_any_gt_epi16", "avx_any_gt_epi16", "sse_any_gt_ps", "sse_select_ps", "sse_rightshiftz_float", "sse_leftshiftz_float", "avx_rightshiftz_float", "avx_leftshiftz_float", "avx512_rightshiftz_float", "avx512_leftshiftz_float", "sse_rightshift_ps", "sse_leftshift_ps", "sse_rightshift_int8", "sse_rightshift_int16", "avx_rightshift_int8", "avx_rightshift_int16", "avx512_rightshift_int8", "avx512_rightshift_int16", "logf_negative", "logf_zero_subnormal", "logf_inf_nan", "expf_underflow", "expf_overflow", "expf_cutoffs_in_window", "expf_nan", "sum_eq_real", "dot_eq_real", "vmax_spec", "vmin_spec", "argmax_spec", "argmin_spec", "argmax_nil", "sortIncreasing_spec", "sortDecreasing_spec", "norm_of_sum_ne_zero", "norm_of_sum_zero", "entropy_eq", "cdf_spec", "validate_spec")]
-    claimed = False
+        "sse_hmax_epu8", "sse_hmax_epi8", "sse_hmax_epi16", "avx_hmax_epu8", "avx_hmax_epi8", "avx_hmax_epi16", "avx512_hmax_epu8", "avx512_hmax_epi8", "avx512_hmax_epi16", "sse_hsum_ps", "avx_hsum_ps", "avx512_hsum_ps", "sse_hmax_ps", "sse_hmin_ps", "sse_any_gt_epu8", "sse_any_gt_epi16", "avx_any_gt_epi16", "sse_any_gt_ps", "sse_select_ps", "sse_rightshiftz_float", "sse_leftshiftz_float", "avx_rightshiftz_float", "avx_leftshiftz_float", "avx512_rightshiftz_float", "avx512_leftshiftz_float", "sse_rightshift_ps", "sse_leftshift_ps", "sse_rightshift_int8", "sse_rightshift_int16", "avx_rightshift_int8", "avx_rightshift_int16", "avx512_rightshift_int8", "avx512_rightshift_int16", "logf_negative", "logf_zero_subnormal", "logf_inf_nan", "expf_underflow", "expf_overflow", "expf_cutoffs_in_window", "expf_nan", "sum_eq_real", "dot_eq_real", "vmax_spec", "vmin_spec", "argmax_spec", "argmin_spec", "argmax_nil", "sortIncreasing_spec", "sortDecreasing_spec", "norm_of_sum_ne_zero", "norm_of_sum_zero", "entropy_eq", "cdf_spec", "validate_spec", "logSum_all_ninf", "logSum_spec", "logSum_of_max_pinf")]
+    claimed = True
+    level_text = ("Theorems (Lean kernel): each of the 33 SSE/AVX/AVX-512 helper inlines, as regenerated from the headers of the working tree, equals the scalar "
+                  "loop over its lanes for every lane pattern (hmax = fold max; any_gt = exists lane; select/shifts lane-wise with the documented fill; float "
+                  "hsum/hmax/hmin = the fixed shuffle tree for any arithmetic, = the left-to-right loop for an associative-commutative operation); "
+                  "esl_sse_logf/expf (regenerated from esl_sse.c) return the documented special values for all 2^32 bit patterns under any float arithmetic; "
+                  "the vector routines over the reals: Kahan sum = exact sum, dot, max/min, ArgMax/ArgMin = first index of the extremum, sort = ordered "
+                  "permutation, Norm sums to 1 (uniform when the sum is 0), entropy, CDF = prefix sums, Validate <-> p-vector within tol, "
+                  "LogSum = log sum exp within n e^-500 with -inf entries and the all--inf case. "
+                  "Tie: regeneration (T) + intrinsic-table validation on hardware + bit-exact differential run of every model against the ASan/UBSan build.")
+    level_note = ("Not a theorem (measured, labelled support): accuracy of the logf/expf polynomials vs libm (quick: stratified sample <= 4 ulp; thorough: all 2^32 "
+                  "patterns x 4 lanes, exhaustive); rounding error of the float vector routines (monitors against exact rational / high-precision values). "
+                  "Trusted: intrinsic semantics table (validated each run), translator, hand model fidelity (differential run), libm, gcc, CPU. "
+                  "Two defects found by this check were fixed upstream (FLogValidate/FLog2Validate status, FValidate NaN); their witnesses stay in the corpus.")
     diverge_is_violation = True
     quick_budget_s = 90
     thorough_budget_s = 1200
@@ -153,8 +165,16 @@ class C20(Prop):
 
     # ------------------------------------------------------------------------------------------ cases
     def corpus(self, ctx):
-        one = "0000803f"
-        return [
+        tol = "%08x" % bits_of_f32(0.01)
+        known = [   # regression witnesses of two defects fixed upstream (57fcd38, 9276da6): must now answer `ok fail`
+            {"name": "regress-FLogValidate",
+             "ops": ["vec op=FLogValidate x=%s s=%s" % (hex_f32s([1.0, 1.0]), tol)]},
+            {"name": "regress-FLog2Validate",
+             "ops": ["vec op=FLog2Validate x=%s s=%s" % (hex_f32s([1.0, 1.0]), tol)]},
+            {"name": "regress-FValidate-nan",
+             "ops": ["vec op=FValidate x=0000c07f s=%s" % tol]},
+        ]
+        return known + [
             {"name": "cpu", "ops": ["cpu"]},
             {"name": "smoke", "ops": [
                 "simd f=esl_sse_hmax_epu8 a=000102030405060708090a0b0c0dff0e",
@@ -412,12 +432,16 @@ class C20(Prop):
                         ops.append("vec op=%sRelEntropy x=%s y=%s" % (T, hx(T, pn), hx(T, q)))
                         ops.append("vec op=%sRelEntropy x=%s y=%s" % (T, hx(T, pn), hx(T, [x + 0.01 for x in q])))
                         ops.append("vec op=%sValidate x=%s s=%s" % (T, hx(T, pn), sb(T, rng.choice([1e-5, 1e-3, 0.0, 1e-12]))))
-                        bad = list(pn); bad[rng.randrange(n)] = rng.choice([-0.1, 1.5, 2.0, -1e-30, math.inf] + ([math.nan] if T == "D" else []))
+                        bad = list(pn); bad[rng.randrange(n)] = rng.choice([-0.1, 1.5, 2.0, -1e-30, math.inf, math.nan, -math.inf])
                         ops.append("vec op=%sValidate x=%s s=%s" % (T, hx(T, bad), sb(T, 1e-3)))
                         ops.append("vec op=%sValidate x=%s s=%s" % (T, hx(T, [x * 1.01 for x in pn]), sb(T, 1e-3)))
                         lp = [math.log(x) if x > 0 else -math.inf for x in pn]
-                        if T == "D": ops.append("vec op=DLogValidate x=%s s=%s" % (hx(T, lp), sb(T, 1e-6)))
-                        if T == "D": ops.append("vec op=DLogValidate x=%s s=%s" % (hx(T, [x + 0.5 for x in lp]), sb(T, 1e-6)))
+                        l2 = [math.log2(x) if x > 0 else -math.inf for x in pn]
+                        ops.append("vec op=%sLogValidate x=%s s=%s" % (T, hx(T, lp), sb(T, 1e-3)))      # valid: every version says ok
+                        ops.append("vec op=%sLog2Validate x=%s s=%s" % (T, hx(T, l2), sb(T, 1e-3)))
+                        ops.append("vec op=%sLogValidate x=%s s=%s" % (T, hx(T, [x + 0.5 for x in lp]), sb(T, 1e-6)))
+                        ops.append("vec op=%sLog2Validate x=%s s=%s" % (T, hx(T, [x + 0.5 for x in l2]), sb(T, 1e-6)))
+                        if n > 1: ops.append("vec op=%sLog2Validate x=%s s=%s" % (T, hx(T, l2[:-1] + [0.5]), sb(T, 1e-6)))
                     ops.append("vec op=%sNorm x=%s" % (T, hx(T, [0.0] * n)))
                     # log space
                     for _ in range(2):
@@ -622,13 +646,14 @@ class C20(Prop):
             if d > Fraction(tol) + slack: return None if st == "fail" else "%sValidate accepted |sum-1| = %.3g > tol %.3g" % (T, float(d), tol)
             if d < Fraction(tol) - slack: return None if st == "ok" else "%sValidate rejected a p-vector with |sum-1| = %.3g <= tol %.3g" % (T, float(d), tol)
             return None
-        if name == "LogValidate":
+        if name in ("LogValidate", "Log2Validate"):
             tol = f64_of_bits(int(kvs["s"], 16)) if T == "D" else f32_of_bits(int(kvs["s"], 16))
             st = w[1]
             if n == 0 or any(math.isnan(v) for v in x): return None
-            if any(v > 1e-9 for v in x): return None if st == "fail" else "LOGV:%sLogValidate accepted exp(element) > 1" % T
-            d = abs(math.fsum(math.exp(v) for v in x) - 1)
-            if d > tol * 1.01 + 1e-6: return None if st == "fail" else "LOGV:%sLogValidate accepted |sum exp - 1| = %.3g > tol" % (T, d)
+            if any(v > 1e-6 for v in x): return None if st == "fail" else "LOGV:%s%s accepted exp(element) > 1" % (T, name)
+            d = abs(math.fsum((math.exp(v) if name == "LogValidate" else 2.0 ** v) for v in x) - 1)
+            if d > tol * 1.01 + 1e-4: return None if st == "fail" else "LOGV:%s%s accepted |sum exp - 1| = %.3g > tol" % (T, name, d)
+            if d < tol * 0.99 - 1e-4: return None if st == "ok" else "%s%s rejected a valid log-p vector (|sum exp - 1| = %.3g, tol %.3g)" % (T, name, d, tol)
             return None
         return None
 
@@ -687,10 +712,8 @@ class C20(Prop):
                 except (OverflowError, ValueError, ZeroDivisionError):
                     m = None
                 if m:
-                    key = None
-                    if m.startswith("NAN:"): key, m = "C20:FValidate:nan-accepted", m[4:]
-                    if m.startswith("LOGV:"): key, m = "C20:FLogValidate:returns-ok-on-failure", m[5:]
-                    return Failure("monitor", m + "  [%s]" % op[:120], key=key)
+                    if m.startswith(("NAN:", "LOGV:")): m = m.split(":", 1)[1]
+                    return Failure("monitor", m + "  [%s]" % op[:120])
         return None
 
     def compare(self, ctx, case, impl_out, model_out):
